@@ -37,7 +37,7 @@ LEVEL_TEXT = ('For every shipped config and random compositions with every stoch
               'must be equal and no operation of the seeded environment may move gym_gridverse.rng, numpy.random or random '
               '(snapshot compare). Child interpreters with different PYTHONHASHSEED recompute SHA-256 digests of every config\'s '
               'trace, which must agree; thorough adds 4 environments on 4 real threads with a 1 microsecond switch interval.'
-              ' Also: every reset function over a parameter grid called with identically seeded generators (equal states, no global generator touched), special seed values, re-seeded used environments, chain members behind **kwargs wrappers, a never-created library generator (its stream must not become a function of the environment seed), child interpreters digesting configs, reset components and stochastic Python-API compositions under other hash seeds.')
+              ' Also: every reset function over a parameter grid called with identically seeded generators (equal states, no global generator touched), special seed values, re-seeded used environments, chain members behind **kwargs wrappers, a never-created library generator (its stream must not become a function of the environment seed), child interpreters digesting configs, reset components and stochastic Python-API compositions under other hash seeds; the functional interface of seeded dense compositions on arbitrary steered member states (agent on a telepod with 1-4 same-coloured partners, obstacles, doors) called twice with the same seed: equal results, no global generator moved.')
 LEVEL_NOTE = ('Trusted: trace recorder and canonical encodings. Equality between different operation sequences is not demanded. '
               'Only executions produced are decided; interleavings are sampled (count of distinct schedules in evidence).')
 SHARDS = {'quick': 4, 'thorough': 16}
@@ -47,7 +47,7 @@ RULE = ('case = (config or composition, seed, operation sequence, hostile schedu
 ASSUMPTIONS = ['the library generator is created/seeded by the harness before snapshots; construction-time sampling by the YAML '
                'factory (which legitimately uses the library generator) happens before the first snapshot']
 REQUIRED = {'quick': {'pairs.compared': 60, 'ops.snapshotted': 5000, 'ops.consumed_randomness': 300, 'hostile.actions': 1000,
-                      'children.compared': 40, 'compositions.compared': 10, 'fresh_library.pairs': 10, 'reseeded.compared': 50, 'component.reset_pairs': 200}}
+                      'children.compared': 40, 'compositions.compared': 10, 'fresh_library.pairs': 10, 'reseeded.compared': 50, 'component.reset_pairs': 200, 'member.functional_pairs': 150}}
 
 
 def ops_for(rng, n):
@@ -503,6 +503,95 @@ def component_level(ctx, n):
             ctx.nontrivial(('component', name, enc.jdump(c13.jsonable(p))))
 
 
+def functional_member_states(ctx, n):
+    """The functional interface of a seeded environment on *arbitrary* member states (not only those its reset function
+    produces): dense compositions, states steered towards interacting components (agent on a telepod with one, two or
+    three same-coloured partners, obstacles around it, doors / boxes in front).  For every (state, action): seed the
+    environment, call functional_step + functional_observation, seed again identically, call again - equal results are
+    required - and none of the three global generators may have moved in between."""
+    import copy
+    done = 0
+    k = 0
+    while done < n and k < 40 * n:
+        k += 1
+        if not ctx.mine(k):
+            continue
+        if ctx.out_of_time(0.9):
+            break
+        rng = gen.rng_for('C02member', ctx.seed, k)
+        comp = workloads.Composition(rng, dense=(k % 2 == 0), force_all_actions=True,
+                                     force_transitions=rng.sample(workloads.TRANSITIONS, 3) + ['move_obstacles', 'teleport'])
+        comp.shape = (max(2, comp.shape[0]), max(2, comp.shape[1]))
+        if Telepod not in comp.types:
+            comp.types.append(Telepod)
+        if MovingObstacle not in comp.types:
+            comp.types.append(MovingObstacle)
+        try:
+            state, _ = comp.member_state(rng)
+            if state is None:
+                continue
+            workloads.steer(comp, rng, state, n_scenarios=2)
+            # several partners of one colour (the destination is then *sampled*), agent standing on one of them
+            if rng.random() < 0.7 and comp.unique_type is not Telepod:
+                c = rng.choice(comp.colors)
+                h, w = comp.shape
+                cells = [(y, x) for y in range(h) for x in range(w)
+                         if not (comp.unique_type and isinstance(state.grid[y, x], comp.unique_type))
+                         and not type(state.grid[y, x]).__name__ == 'Beacon']
+                rng.shuffle(cells)
+                pods = cells[:rng.randint(3, 5)]
+                if len(pods) >= 3:
+                    for y, x in pods:
+                        state.grid[y, x] = Telepod(c)
+                    y, x = pods[0]
+                    state.agent.position = Position(y, x)
+            env = comp.build(lambda *, rng=None, _s=state: copy.deepcopy(_s))
+        except Exception as e:
+            if raised_by_harness(e):
+                ctx.inconc(f'member-state composition #{k} could not be assembled: {describe_exc(e)}')
+            ctx.add('member_compositions_not_assembled')
+            continue
+        seed = rng.choice([0, 1, 2**32 - 1, rng.randrange(2**32)])
+        payload = {'k': k, 'seed': seed}
+        for action in comp.actions:
+            results = []
+            gv_rng.reset_gv_rng(4242)
+            np.random.seed(99)
+            random.seed(99)
+            g0 = global_snapshot()
+            failed = False
+            for rep in range(2):
+                s_in = copy.deepcopy(state)
+                ok0, _ = call_real(env.set_seed, seed)
+                ok1, r = call_real(env.functional_step, s_in, action)
+                if not (ok0 and ok1):
+                    failed = True
+                    break
+                ok2, o = call_real(env.functional_observation, r[0])
+                if not ok2:
+                    failed = True
+                    break
+                results.append((enc.es(r[0]), repr(float(r[1])), bool(r[2]), enc.eg(o.grid), enc.ea(o.agent)))
+            g1 = global_snapshot()
+            if failed:
+                ctx.add('member_calls_raised')  # totality is C01's business
+                continue
+            done += 1
+            ctx.ev()
+            ctx.hit('member.functional_pairs')
+            if g1 != g0:
+                ctx.violation('isolation', 'global_rng_moved.functional_member_state',
+                              f'functional_step / functional_observation of a seeded composition on a member state '
+                              f'({action.name}) moved a global generator; transitions {[t["name"] for t in comp.transitions]}',
+                              'member_case', payload)
+            if results[0] != results[1]:
+                ctx.violation('reproducible', 'functional_member_state.not_reproducible',
+                              f'identically seeded environment, same member state, same action ({action.name}): different results',
+                              'member_case', payload)
+            if enc.es(state) != results[0][0]:
+                ctx.nontrivial(('member', k, action.name))
+
+
 def composition_factory(comp_seed):
     """random composition with stochastic components and a random built-in reset"""
     def make():
@@ -595,6 +684,7 @@ def run(ctx):
             ctx.hit('compositions.compared')
             fresh_library_generator(ctx, f'composition#{ctx.seed * 977 + k}', 'comp', factory, seed, payload)
         component_level(ctx, ctx.pick(400, 6000))
+        functional_member_states(ctx, ctx.pick(1200, 20000))
         # cross-process digests under different PYTHONHASHSEED
         all_hash_seeds = list(range(1, ctx.pick(5, 33)))
         mine = [h for i, h in enumerate(all_hash_seeds) if ctx.mine(i)]
@@ -636,6 +726,8 @@ def replay(ctx, kind, payload):
             ctx.violation('reproducible', 'trace.differs_across_hash_seeds', f'{payload["config"]}: digests differ', kind, payload)
     elif kind == 'component_case':
         component_level(ctx, 400)
+    elif kind == 'member_case':
+        functional_member_states(ctx, 1200)
     elif kind == 'thread_case':
         threads(ctx, [(n, d) for n, _, d in configs if n == payload['config']] * 4, payload['seed'], 200)
 
